@@ -1,46 +1,160 @@
 #!/usr/bin/env python3
 """
-Regenerates lean/SuxModel/Gen/Consts.lean from /repo's *current* source text.
+Regenerates lean/SuxModel/Gen/Consts.lean from /repo's *current* source text (tie 3 of DESIGN §1).
 
-Each constant is located by a regex anchored on the surrounding source; an anchor that does not
-match exactly once is a broken tie: the script prints `CHECK-BROKEN tie=consts anchor=<name>` and
-exits 1.  The Lean models use these definitions, and the side conditions the proofs need are
-lemmas about the generated values, so the theorems are re-checked against what the code says now.
+Each constant is located by a regex anchored on the surrounding source; every listed file must
+match exactly the expected number of times and, where several files carry the same constant
+(the four SelectAdapt variants), all must agree.  A broken anchor is a broken tie: the script
+prints `CHECK-BROKEN tie=consts anchor=<name>` and exits 1.  The Lean models refer to these
+definitions, and the side conditions the proofs need are lemmas about the generated values
+(SuxModel/Gen/ConstsLemmas.lean), so the theorems are re-checked against what the code says now:
+an edited constant either keeps every side condition (harmless; correspondence decides) or breaks
+a named lemma (then check reports per DESIGN §3.1).
 """
 import os, re, sys
 
 REPO = "/repo"
 OUT = os.path.join(os.path.dirname(os.path.abspath(__file__)), "..", "lean", "SuxModel", "Gen", "Consts.lean")
 
-# (lean name, file, regex with one group, converter)
-def hexint(s):
-    s = s.replace("_", "")
+
+def num(s):
+    s = s.replace("_", "").strip()
     return int(s, 16) if s.lower().startswith("0x") else int(s)
 
+
+def ratio(s):
+    """decimal literal -> (numerator, denominator) as exact rational"""
+    s = s.replace("_", "").strip().rstrip(".")
+    if "." in s:
+        a, b = s.split(".")
+        return int(a + b), 10 ** len(b)
+    return int(s), 1
+
+
+ADAPT = ["src/rank_sel/select_adapt.rs", "src/rank_sel/select_adapt_const.rs",
+         "src/rank_sel/select_zero_adapt.rs", "src/rank_sel/select_zero_adapt_const.rs"]
+
+# (lean name, files, regex with one group, converter, expected matches per file, doc)
 ANCHORS = [
-    # name, file, regex, conv
+    ("spanU16Max", ["src/rank_sel/select_adapt.rs"], r"0\.\.=(0x[0-9a-fA-F_]+)\s*=>\s*SpanType::U16", num, 1, "largest span encoded with 16-bit offsets"),
+    ("spanU32Max", ["src/rank_sel/select_adapt.rs"], r"0x[0-9a-fA-F_]+\.\.=(0x[0-9a-fA-F_]+)\s*=>\s*SpanType::U32", num, 1, "largest span encoded with 32-bit offsets"),
+    ("spanU32Min", ["src/rank_sel/select_adapt.rs"], r"(0x[0-9a-fA-F_]+)\.\.=0x[0-9a-fA-F_]+\s*=>\s*SpanType::U32", num, 1, "smallest span encoded with 32-bit offsets"),
+    ("sub32Shift", ADAPT, r"saturating_sub\(\(span >> (\d+)\)\.ilog2\(\)", num, 1, "shift in log2_ones_per_sub32"),
+    ("defaultTargetInventorySpan", ["src/rank_sel/select_adapt.rs", "src/rank_sel/select_zero_adapt.rs"],
+     r"DEFAULT_TARGET_INVENTORY_SPAN: usize = (\d+);", num, 1, "default target inventory span"),
+    ("rank9WordsPerBlock", ["src/rank_sel/rank9.rs"], r"const WORDS_PER_BLOCK: usize = (\d+);", num, 1, "words per Rank9 block"),
+    ("rank9RelBits", ["src/rank_sel/rank9.rs"], r"self\.relative >> \((\d+) \* \(word \^ 7\)\)", num, 1, "bits per Rank9 relative counter"),
+    ("rank9RelMask", ["src/rank_sel/rank9.rs"], r"\(word \^ 7\)\)\) & (0x[0-9A-Fa-f]+)", num, 1, "mask of a Rank9 relative counter"),
+    ("superblockLog2", ["src/rank_sel/rank_small.rs"], r"num_bits\.div_ceil\(1usize << (\d+)\)", num, 1, "log2 of the RankSmall superblock size in bits"),
+    ("upperCountWordsLog2", ["src/rank_sel/rank_small.rs"], r"i % \(1usize << (\d+)\) == 0", num, 1, "log2 of the RankSmall superblock size in words"),
+    ("sel9Log2OnesPerInv", ["src/rank_sel/select9.rs"], r"const LOG2_ZEROS_PER_INVENTORY: usize = (\d+);", num, 1, "log2 of ones per Select9 inventory entry"),
+    ("sel9U64PerSubinv", ["src/rank_sel/select9.rs"], r"let u64_per_subinventory = (\d+);", num, 1, "u64 per Select9 subinventory"),
+    ("selSmallBlocksPerInv", ["src/rank_sel/select_small.rs", "src/rank_sel/select_zero_small.rs"],
+     r"Self::with_inv\(small_counters, (\d+)\)", num, 1, "default RankSmall blocks per inventory entry"),
+    ("efLog2OnesPerInv", ["src/dict/elias_fano.rs"], r"Select(?:Zero)?AdaptConst::<_, _, (\d+), \d+>::new", num, 8, "Elias-Fano select: log2 ones per inventory"),
+    ("efLog2U64PerSub", ["src/dict/elias_fano.rs"], r"Select(?:Zero)?AdaptConst::<_, _, \d+, (\d+)>::new", num, 8, "Elias-Fano select: log2 u64 per subinventory"),
+    ("vbyteBase", ["src/dict/rear_coded_list.rs"], r"const UPPER_BOUND_1: usize = (\d+);", num, 1, "first vbyte bound"),
+    ("maxLinSize", ["src/func/shard_edge.rs"], r"const MAX_LIN_SIZE: usize = ([\d_]+);", num, 1, "largest key set solved by lazy Gaussian elimination"),
+    ("halfMaxLinShardSize", ["src/func/shard_edge.rs"], r"const HALF_MAX_LIN_SHARD_SIZE: usize = ([\d_]+);", num, 1, "half of the maximum LGE shard size"),
+    ("minFuseShard", ["src/func/shard_edge.rs"], r"const MIN_FUSE_SHARD: usize = ([\d_]+);", num, 1, "minimum fuse shard size"),
+    ("noShardsSegCap", ["src/func/shard_edge.rs"], r"Self::log2_seg_size\(3, n\)\.min\((\d+)\)", num, 1, "cap of log2 segment size without shards"),
+    ("log2MaxShards", ["src/func/vbuilder.rs"], r"const LOG2_MAX_SHARDS: u32 = (\d+);", num, 1, "log2 of the maximum number of shards"),
+    ("dupRetries", ["src/func/vbuilder.rs"], r"if dup_count >= (\d+) \{", num, 1, "retries on duplicate signatures"),
+    ("localDupRetries", ["src/func/vbuilder.rs"], r"if local_dup_count >= (\d+) \{", num, 1, "retries on duplicate local signatures"),
+    ("maxNoLocalSigCheckLog2", ["src/func/vbuilder.rs"], r"const MAX_NO_LOCAL_SIG_CHECK: usize = 1 << (\d+);", num, 1, "log2 of the key count above which local signatures are deduplicated"),
+    ("mixMul1", ["src/func/mod.rs"], r"k = k\.overflowing_mul\((0x[0-9a-f_]+)\)\.0;\s*k \^= k >> 33;\s*k = k\.overflowing_mul", num, 1, "first multiplier of mix64"),
+    ("mixMul2", ["src/func/mod.rs"], r"k \^= k >> 33;\s*k = k\.overflowing_mul\((0x[0-9a-f_]+)\)\.0;\s*k \^= k >> 33;\s*k\s*\}", num, 1, "second multiplier of mix64"),
+    ("mixShift", ["src/func/mod.rs"], r"k \^= k >> (\d+);", num, 3, "shift of mix64"),
+    ("unalignedSlackA", ["src/bits/bit_field_vec.rs"], r"self\.bit_width <= W::BITS - 8 \+ (\d+)", num, 2, "get_unaligned: widths up to W - 8 + this"),
+    ("unalignedSlackB", ["src/bits/bit_field_vec.rs"], r"self\.bit_width == W::BITS - 8 \+ (\d+)", num, 2, "get_unaligned: width W - 8 + this"),
 ]
 
+# rationals: emitted as numerator / denominator pairs
+RATIOS = [
+    ("maxShardSlack", ["src/func/vbuilder.rs"], r"max_shard as f64 > ([\d.]+) \* self\.num_keys as f64", 1, "tolerated ratio largest / average shard"),
+    ("cSmall", ["src/func/shard_edge.rs"], r"if n <= 100 \{\s*\(([\d.]+), Self::lin_log2_seg_size", 1, "expansion factor for n <= 100 (sharded logic)"),
+    ("cLin", ["src/func/shard_edge.rs"], r"else if n <= Self::MAX_LIN_SIZE \{\s*\(([\d.]+), Self::lin_log2_seg_size", 1, "expansion factor in the LGE regime (sharded logic)"),
+    ("cLinNoShards", ["src/func/shard_edge.rs"], r"HALF_MAX_LIN_SHARD_SIZE \{\s*\(([\d.]+), FuseLge3Shards::lin_log2_seg_size", 1, "expansion factor in the LGE regime (no shards)"),
+    ("linSegCoeff", ["src/func/shard_edge.rs"], r"\(([\d.]+) \* \(n\.max\(1\) as f64\)\.ln\(\)\)\.floor\(\)", 1, "coefficient of ln n in lin_log2_seg_size"),
+]
+
+LISTS = [
+    # fuse c() constants in order
+    ("cFuse", "src/func/shard_edge.rs",
+     r"if n <= Self::MIN_FUSE_SHARD / 2 \{\s*([\d.]+)\s*\} else if n <= Self::MIN_FUSE_SHARD \{\s*([\d.]+)\s*\} else if n <= 2 \* Self::MIN_FUSE_SHARD \{\s*([\d.]+)\s*\} else \{\s*([\d.]+)\s*\}",
+     "expansion factors of the fuse regime, by shard size class"),
+]
+
+
 def main():
-    lines = ["/-! GENERATED by tools/extract_consts.py from /repo — do not edit. -/", "namespace Sux.Gen", ""]
+    out = ["/-! GENERATED by tools/extract_consts.py from /repo's current source — do not edit.",
+           "Every run of ./check regenerates this file; the proofs are re-checked against these values. -/",
+           "namespace Sux.Gen", ""]
     bad = []
-    for name, file, rx, conv in ANCHORS:
-        src = open(os.path.join(REPO, file)).read()
+
+    def grab(name, files, rx, expected):
+        vals = []
+        for f in files:
+            src = open(os.path.join(REPO, f)).read()
+            ms = re.findall(rx, src, flags=re.S)
+            if len(ms) != expected:
+                bad.append((name, f, len(ms), expected))
+                return None
+            vals += [m if isinstance(m, str) else m for m in ms]
+        return vals
+
+    for name, files, rx, conv, expected, doc in ANCHORS:
+        vals = grab(name, files, rx, expected)
+        if vals is None:
+            continue
+        cv = {conv(v) for v in vals}
+        if len(cv) != 1:
+            bad.append((name, ",".join(files), f"disagreeing values {sorted(cv)}", 1))
+            continue
+        out.append(f"/-- {doc} (`{files[0]}`{' and ' + str(len(files) - 1) + ' more' if len(files) > 1 else ''}) -/")
+        out.append(f"def {name} : Nat := {cv.pop()}")
+    for name, files, rx, expected, doc in RATIOS:
+        vals = grab(name, files, rx, expected)
+        if vals is None:
+            continue
+        cv = {ratio(v) for v in vals}
+        if len(cv) != 1:
+            bad.append((name, ",".join(files), "disagreeing values", 1))
+            continue
+        a, b = cv.pop()
+        out.append(f"/-- {doc} (`{files[0]}`), as the exact rational `{name}Num / {name}Den` -/")
+        out.append(f"def {name}Num : Nat := {a}")
+        out.append(f"def {name}Den : Nat := {b}")
+    for name, f, rx, doc in LISTS:
+        src = open(os.path.join(REPO, f)).read()
         ms = re.findall(rx, src, flags=re.S)
         if len(ms) != 1:
-            bad.append((name, file, len(ms)))
+            bad.append((name, f, len(ms), 1))
             continue
-        v = conv(ms[0])
-        lines.append(f"/-- `{file}` -/\ndef {name} : Nat := {v}")
-    lines += ["", "end Sux.Gen", ""]
-    new = "\n".join(lines)
+        rs = [ratio(x) for x in ms[0]]
+        den = max(b for _, b in rs)
+        nums = [a * (den // b) for a, b in rs]
+        out.append(f"/-- {doc} (`{f}`), numerators over `{name}Den` -/")
+        out.append(f"def {name}Nums : List Nat := {nums}")
+        out.append(f"def {name}Den : Nat := {den}")
+    # RankSmall table from the rank_small! macro arms
+    src = open(os.path.join(REPO, "src/rank_sel/rank_small.rs")).read()
+    arms = re.findall(r"\((\d) ; \$bits: expr\) => \{\s*\$crate::prelude::RankSmall::<(\d+), (\d+), _, _, _>::new", src)
+    if len(arms) != 5 or [int(a[0]) for a in arms] != [0, 1, 2, 3, 4]:
+        bad.append(("rankSmallTable", "src/rank_sel/rank_small.rs", len(arms), 5))
+    else:
+        out.append("/-- (NUM_U32S, COUNTER_WIDTH) of `rank_small![k; …]`, k = 0..4 (`src/rank_sel/rank_small.rs`) -/")
+        out.append("def rankSmallTable : List (Nat × Nat) := [" + ", ".join(f"({a[1]}, {a[2]})" for a in arms) + "]")
+    out += ["", "end Sux.Gen", ""]
+    new = "\n".join(out)
     old = open(OUT).read() if os.path.exists(OUT) else None
     if new != old:
         os.makedirs(os.path.dirname(OUT), exist_ok=True)
         open(OUT, "w").write(new)
-    for name, file, n in bad:
-        print(f"CHECK-BROKEN tie=consts anchor={name} file={file} matches={n}")
+    for name, f, n, e in bad:
+        print(f"CHECK-BROKEN tie=consts anchor={name} file={f} matches={n} expected={e}")
     return 1 if bad else 0
+
 
 if __name__ == "__main__":
     sys.exit(main())
